@@ -66,6 +66,7 @@ fn render(e: &Value, c: &Value) -> String {
         if c["lit"][j].as_bool().unwrap_or(false) { return lit_sql(&c["rows"][0][j], c["ty"][j].as_str().unwrap_or("s")); }
         return format!("c{}", j);
     }
+    if let Some(k) = e.get("k") { return lit_sql(k, e["t"].as_str().unwrap_or("s")); }
     let f = e["f"].as_str().unwrap_or("");
     let a: Vec<String> = e["a"].as_array().map(|v| v.iter().map(|x| render(x, c)).collect()).unwrap_or_default();
     match f {
@@ -85,6 +86,7 @@ fn render(e: &Value, c: &Value) -> String {
         }
         "position" => format!("POSITION({} IN {})", a[0], a[1]),      // position(substring IN string)
         "concat_op" => format!("({} || {})", a[0], a[1]),
+        "add" => format!("({} + {})", a[0], a[1]),
         _ => format!("{}({})", f, a.join(", ")),
     }
 }
@@ -252,6 +254,9 @@ fn gen_kind(r: &mut Rng, k: &str) -> Value {
         "P" => jv_i(if r.chance(1, 10) { r.range(-2, 0) } else { r.range(1, 6) }),           // 1-based positions
         "R" => jv_i(if r.chance(1, 8) { *r.pick(&[0, 1, 37, -2, 100]) } else { *r.pick(&[2, 8, 10, 16, 36, 3, 7, 35]) }),  // radix
         "C" => jv_i(match r.below(8) { 0 => *r.pick(&[0, -1, 0xD800, 0xDFFF, 0x110000, 0x10FFFF, (1i64 << 32) + 65, i64::MAX]), 1 => r.range(0x80, 0x2FFF), 2 => r.range(0x1F600, 0x1F64F), _ => r.range(32, 126) }), // code points
+        "Rv" => jv_i(*r.pick(&[2, 8, 10, 16, 36, 3, 7, 35])),
+        "Dm" => json!({"d": r.range(-30000, 40000)}),
+        "Md" => jv_i(r.range(-4000, 4000)),
         "Cv" => jv_i(match r.below(4) { 0 => r.range(0x80, 0xD7FF), 1 => r.range(0xE000, 0x10FFFF), _ => r.range(1, 126) }),
         "S" => jv_s(&gen_str(r)),
         "T" => jv_s(&gen_short(r)),                                 // delimiters / patterns / pad strings
@@ -289,7 +294,7 @@ fn gen_kind(r: &mut Rng, k: &str) -> Value {
     }
 }
 fn kind_type(k: &str) -> &'static str {
-    match k { "J" => "j", "Cv" | "I" | "N" | "P" | "R" | "C" | "I32" | "M" | "K" | "Sh" | "Z" | "Zp" | "Pn" | "Wb" | "Wn" => "i", "B" | "Bo" => "b", "X" | "X4" | "X8" => "x", "D" => "d", _ => "s" }
+    match k { "J" => "j", "Dm" => "d", "Rv" | "Md" | "Cv" | "I" | "N" | "P" | "R" | "C" | "I32" | "M" | "K" | "Sh" | "Z" | "Zp" | "Pn" | "Wb" | "Wn" => "i", "B" | "Bo" => "b", "X" | "X4" | "X8" => "x", "D" => "d", _ => "s" }
 }
 
 /// (tag, sql name, argument kinds). A trailing "*" on the last kind = variadic (1..4 of that kind).
@@ -336,32 +341,63 @@ const FUNCS: &[(&str, &str, &[&str])] = &[
     ("date_add", "date_add", &["U", "M", "D"]), ("date_diff", "date_diff", &["U", "D", "D"]), ("date_trunc", "date_trunc", &["U", "D"]),
 ];
 
-/// laws judged on the engine's own output: (tag, outer.., inner.., kinds) meaning outer(inner(arg0)) = arg0
-const LAWS_ID: &[(&str, &[&str], &[&str])] = &[
-    ("law:reverse_reverse", &["reverse", "reverse"], &["S"]),
-    ("law:not_not", &["bitwise_not", "bitwise_not"], &["Sh"]),
-    ("law:from_hex_to_hex", &["from_hex", "to_hex"], &["X"]),
-    ("law:from_base64_to_base64", &["from_base64", "to_base64"], &["X"]),
-    ("law:from_base64url_to_base64url", &["from_base64url", "to_base64url"], &["X"]),
-    ("law:from_base32_to_base32", &["from_base32", "to_base32"], &["X"]),
-    ("law:from_big_endian_64_to", &["from_big_endian_64", "to_big_endian_64"], &["I"]),
-    ("law:from_big_endian_32_to", &["from_big_endian_32", "to_big_endian_32"], &["J"]),
-    ("law:url_decode_url_encode", &["url_decode", "url_encode"], &["S"]),
-    ("law:from_utf8_to_utf8", &["from_utf8", "to_utf8"], &["S"]),
-    ("law:codepoint_chr", &["codepoint", "chr"], &["Cv"]),
-];
+/// Laws judged on the ENGINE's own outputs, independent of the model.
+/// ("id", k): value of `e` must equal argument k;  ("eq"): `e` and `e2` must evaluate to the same value.
+fn ap(f: &str, a: Vec<Value>) -> Value { json!({"f": f, "a": a}) }
+fn ar(j: usize) -> Value { json!({"arg": j}) }
+fn ks(s: &str) -> Value { json!({"k": {"s": s}, "t": "s"}) }
+fn ki(i: i64) -> Value { json!({"k": {"i": i}, "t": "i"}) }
+struct Law { tag: &'static str, kinds: &'static [&'static str], e: Value, e2: Option<Value>, idk: usize }
+fn laws() -> Vec<Law> {
+    let id = |tag, kinds, e| Law { tag, kinds, e, e2: None, idk: 0 };
+    let idk = |tag, kinds, e, k| Law { tag, kinds, e, e2: None, idk: k };
+    let eq = |tag, kinds, e, e2| Law { tag, kinds, e, e2: Some(e2), idk: 0 };
+    vec![
+        id("law:reverse_reverse", &["S"], ap("reverse", vec![ap("reverse", vec![ar(0)])])),
+        id("law:not_not", &["Sh"], ap("bitwise_not", vec![ap("bitwise_not", vec![ar(0)])])),
+        id("law:from_hex_to_hex", &["X"], ap("from_hex", vec![ap("to_hex", vec![ar(0)])])),
+        id("law:from_base64_to_base64", &["X"], ap("from_base64", vec![ap("to_base64", vec![ar(0)])])),
+        id("law:from_base64url_to_base64url", &["X"], ap("from_base64url", vec![ap("to_base64url", vec![ar(0)])])),
+        id("law:from_base32_to_base32", &["X"], ap("from_base32", vec![ap("to_base32", vec![ar(0)])])),
+        id("law:from_big_endian_64_to", &["I"], ap("from_big_endian_64", vec![ap("to_big_endian_64", vec![ar(0)])])),
+        id("law:from_big_endian_32_to", &["J"], ap("from_big_endian_32", vec![ap("to_big_endian_32", vec![ar(0)])])),
+        id("law:url_decode_url_encode", &["S"], ap("url_decode", vec![ap("url_encode", vec![ar(0)])])),
+        id("law:from_utf8_to_utf8", &["S"], ap("from_utf8", vec![ap("to_utf8", vec![ar(0)])])),
+        id("law:codepoint_chr", &["Cv"], ap("codepoint", vec![ap("chr", vec![ar(0)])])),
+        id("law:from_base_to_base", &["I", "Rv"], ap("from_base", vec![ap("to_base", vec![ar(0), ar(1)]), ar(1)])),
+        id("law:substring_from_1", &["S"], ap("substring", vec![ar(0), ki(1)])),
+        idk("law:date_diff_date_add_day", &["Dm", "Md"], ap("date_diff", vec![ks("day"), ar(0), ap("date_add", vec![ks("day"), ar(1), ar(0)])]), 1),
+        eq("law:concat_eq_op", &["S", "S"], ap("concat", vec![ar(0), ar(1)]), ap("concat_op", vec![ar(0), ar(1)])),
+        eq("law:de_morgan", &["Sh", "Sh"], ap("bitwise_not", vec![ap("bitwise_and", vec![ar(0), ar(1)])]), ap("bitwise_or", vec![ap("bitwise_not", vec![ar(0)]), ap("bitwise_not", vec![ar(1)])])),
+        eq("law:bit_count_incl_excl", &["Sh", "Sh"], ap("add", vec![ap("bit_count", vec![ap("bitwise_and", vec![ar(0), ar(1)])]), ap("bit_count", vec![ap("bitwise_or", vec![ar(0), ar(1)])])]),
+           ap("add", vec![ap("bit_count", vec![ar(0)]), ap("bit_count", vec![ar(1)])])),
+        eq("law:length_concat", &["S", "S"], ap("length", vec![ap("concat_op", vec![ar(0), ar(1)])]), ap("add", vec![ap("length", vec![ar(0)]), ap("length", vec![ar(1)])])),
+        eq("law:length_reverse", &["S"], ap("length", vec![ap("reverse", vec![ar(0)])]), ap("length", vec![ar(0)])),
+        eq("law:reverse_concat", &["S", "S"], ap("reverse", vec![ap("concat_op", vec![ar(0), ar(1)])]), ap("concat_op", vec![ap("reverse", vec![ar(1)]), ap("reverse", vec![ar(0)])])),
+        eq("law:upper_lower", &["A"], ap("upper", vec![ap("lower", vec![ar(0)])]), ap("upper", vec![ar(0)])),
+        eq("law:levenshtein_symmetric", &["Sm", "Sm"], ap("levenshtein_distance", vec![ar(0), ar(1)]), ap("levenshtein_distance", vec![ar(1), ar(0)])),
+        eq("law:hamming_symmetric", &["Sm", "Sm"], ap("hamming_distance", vec![ar(0), ar(1)]), ap("hamming_distance", vec![ar(1), ar(0)])),
+        eq("law:greatest_commutes", &["I", "I"], ap("greatest", vec![ar(0), ar(1)]), ap("greatest", vec![ar(1), ar(0)])),
+        eq("law:last_day_idempotent", &["Dm"], ap("last_day_of_month", vec![ap("last_day_of_month", vec![ar(0)])]), ap("last_day_of_month", vec![ar(0)])),
+        eq("law:date_trunc_idempotent", &["Dm"], ap("date_trunc", vec![ks("month"), ap("date_trunc", vec![ks("month"), ar(0)])]), ap("date_trunc", vec![ks("month"), ar(0)])),
+        eq("law:left_is_substring", &["S", "Zp"], ap("left", vec![ar(0), ar(1)]), ap("substring", vec![ar(0), ki(1), ar(1)])),
+        eq("law:strpos_is_position", &["S", "T"], ap("strpos", vec![ar(0), ar(1)]), ap("position", vec![ar(1), ar(0)])),
+    ]
+}
 
 fn pick_null(r: &mut Rng, v: Value) -> Value { if r.chance(1, 9) { Value::Null } else { v } }
 
 fn gen_case(r: &mut Rng, n: usize) -> Value {
     let law = n % 7 == 6;
+    let mut e2 = Value::Null; let mut lawv = Value::Null;
     let (tag, e, kinds): (String, Value, Vec<String>) = if law {
-        let (tag, chain, kinds) = *r.pick(LAWS_ID);
-        let mut e = json!({"arg": 0});
-        for f in chain.iter().rev() { e = json!({"f": f, "a": [e]}); }
-        (tag.to_string(), e, kinds.iter().map(|s| s.to_string()).collect())
+        let ls = laws();
+        let l = &ls[(n / 7) % ls.len()];
+        let _ = r.next();
+        if let Some(x) = &l.e2 { e2 = x.clone(); lawv = json!("eq"); } else { lawv = json!(format!("id{}", l.idk)); }
+        (l.tag.to_string(), l.e.clone(), l.kinds.iter().map(|s| s.to_string()).collect())
     } else {
-        let (tag, name, kinds) = FUNCS[(n / 1) % FUNCS.len()];
+        let (tag, name, kinds) = FUNCS[(n - n / 7) % FUNCS.len()];
         let _ = r.next();
         let mut ks: Vec<String> = vec![];
         for k in kinds.iter() {
@@ -382,7 +418,8 @@ fn gen_case(r: &mut Rng, n: usize) -> Value {
         for j in 0..nargs {
             if lit[j] && i > 0 { row.push(rows[0][j].clone()); continue; }
             let g = gen_kind(r, &kinds[j]);
-            let mut v = pick_null(r, g);
+            // this law involves two functions with separately listed NULL-handling findings (F5, F17): keep its arguments non-NULL
+            let mut v = if tag == "law:left_is_substring" { g } else { pick_null(r, g) };
             // dates outside 0001..9999 cannot be written as literals
             if lit[j] { if let Some(d) = v.get("d").and_then(|x| x.as_i64()) { if !date_literal_ok(d) { v = json!({"d": d.rem_euclid(60000) - 20000}); } } }
             row.push(v);
@@ -390,7 +427,7 @@ fn gen_case(r: &mut Rng, n: usize) -> Value {
         rows.push(row);
     }
     let ty: Vec<&str> = kinds.iter().map(|k| kind_type(k)).collect();
-    json!({"fn": tag, "e": e, "ty": ty, "lit": lit, "rows": rows, "law": if law { json!("id0") } else { Value::Null }})
+    json!({"fn": tag, "e": e, "e2": e2, "ty": ty, "lit": lit, "rows": rows, "law": lawv})
 }
 
 pub fn main(o: &Opts) {
